@@ -71,6 +71,8 @@ pub mod fault {
         if n == PANIC_AT.load(SeqCst) {
             PANIC_AT.store(u64::MAX, SeqCst);
             FIRED.fetch_add(1, SeqCst);
+            #[cfg(feature = "e3")]
+            salsa::verif::trace_mark("user_panic");
             std::panic::panic_any(Injected(n, kind));
         }
     }
@@ -612,8 +614,12 @@ impl<'db> Host for SalsaHost<'db> {
 fn exec<'db>(db: &'db dyn SimDb, node: usize, me: u64, r0: u32, ts0: Option<Ts<'db>>, it0: Option<ItH<'db>>) -> BodyOut<SalsaHost<'db>> {
     let sh = db.sh();
     sh.push(Ev::Exec { node, id: me, arg: r0 });
+    #[cfg(feature = "e3")]
+    salsa::verif::trace_mark(if matches!(sh.prog.nodes[node].kind, Kind::Fix | Kind::FixJ | Kind::FixBad) { "enter:fix" } else { "enter:other" });
     let mut h = SalsaHost { db, me };
     let out = run_body(&mut h, &sh.prog, node, r0, ts0, it0);
+    #[cfg(feature = "e3")]
+    salsa::verif::trace_mark("exit");
     let mut full = crate::rng::hash64(7, out.ret as u64);
     match sh.prog.nodes[node].kind {
         Kind::Ref => {
